@@ -418,7 +418,10 @@ def _job(job):
                 seen.add((rng.randrange(n), rng.randrange(n), rng.randrange(n)))
             tables += sorted(seen)
             out["exhaustive3"] = False
+        stride, offset = job.get("stride", 1), job.get("offset", 0)
         for ti, tb in enumerate(tables):
+            if ti % stride != offset:
+                continue
             order = ORDERS[(ti + job["id"]) % 3]
             run_table(order, _as_rows([types[i] for i in tb], order), light=(ti % 7 != 0), key=(job["id"], tb))
     elif kind == "given":
@@ -495,13 +498,6 @@ def run(w: Workload):
     counters = {}
     quick = w.quick
 
-    # part rows: every template, one stacked table of all row types
-    jobs = sidecar_jobs("rows", 5 if quick else 7, full_pairs=not quick, seed=w.seed)
-    n = _absorb(w, _par(jobs), counters)
-    w.part("rows", cases=n, bound=f"all well-formed templates <= {5 if quick else 7} tokens x host in (categorical entry, value "
-           f"template) x reference targets (kat, wal, HED; pairs {'rotated' if quick else 'all ordered'}); per sidecar one "
-           "table listing every combination of host/referenced cells", exhaustive=True, sidecars=len(jobs))
-
     # part tables: small tables, all of them
     max2, max3 = (150, 40) if quick else (None, 4096)
     tjobs = [j for j in sidecar_jobs("tables", 3, full_pairs=False, seed=w.seed, max3=max3, max2=max2)]
@@ -517,15 +513,32 @@ def run(w: Workload):
     if quick:
         extra = extra[::2]
     tjobs += extra
-    tjobs.sort(key=lambda j: -len(row_types(j["host"], j["targets"])))
-    results = _par(tjobs)
+    split = []  # big sidecars are spread over several jobs (every stride-th table) for load balance
+    for j in tjobs:
+        n = len(row_types(j["host"], j["targets"]))
+        total = n + (n * n if max2 is None else min(n * n, max2)) + min(n ** 3, max3)
+        stride = max(1, -(-total // 500))
+        split += [dict(j, stride=stride, offset=o) for o in range(stride)]
+    results = _par(split)
+    merged = {}
+    for j, r in zip(split, results):
+        m = merged.setdefault(j["id"], {"exhaustive2": True, "exhaustive3": True})
+        m["exhaustive2"] &= bool(r.get("exhaustive2"))
+        m["exhaustive3"] &= bool(r.get("exhaustive3"))
     n = _absorb(w, results, counters)
-    ex3 = all(r.get("exhaustive3") and r.get("exhaustive2") for r in results)
+    ex3 = all(m["exhaustive3"] and m["exhaustive2"] for m in merged.values())
     w.part("tables", cases=n, bound="templates <= 3 tokens + 8 hand-picked nested shapes; all 1-row tables; 2-row tables: " +
            ("all" if not quick else "all when <= 150 per sidecar, else a seeded sample of 150") + "; 3-row tables: " +
            ("all when <= 4096 per sidecar, else a seeded sample of 4096" if not quick else "seeded sample of 40 per sidecar") +
            "; 3 file column orders rotated", exhaustive=ex3, sidecars=len(tjobs),
-           sidecars_fully_enumerated=sum(1 for r in results if r.get("exhaustive3") and r.get("exhaustive2")))
+           sidecars_fully_enumerated=sum(1 for m in merged.values() if m["exhaustive3"] and m["exhaustive2"]))
+
+    # part rows: every template, one stacked table of all row types
+    jobs = sidecar_jobs("rows", 5 if quick else 7, full_pairs=not quick, seed=w.seed)
+    n = _absorb(w, _par(jobs), counters)
+    w.part("rows", cases=n, bound=f"all well-formed templates <= {5 if quick else 7} tokens x host in (categorical entry, value "
+           f"template) x reference targets (kat, wal, HED; pairs {'rotated' if quick else 'all ordered'}); per sidecar one "
+           "table listing every combination of host/referenced cells", exhaustive=True, sidecars=len(jobs))
 
     # part ref: replace_ref directly, tree oracle
     n = _part_replace_ref(w, 6 if quick else 8, counters)
